@@ -280,6 +280,11 @@ def register(M):
             return Sc(X.num(Fr(m.group(1)) * unit), 'm8', 'ns')
         if args and isinstance(args[0], Sc) and args[0].dtype == 'm8' and len(args) == 1 and not kw:
             return args[0]
+        if len(args) == 1 and not kw and (isinstance(args[0], (int, Fr)) and not isinstance(args[0], bool) or isinstance(args[0], Sc) and args[0].dtype in ('i8', 'f8', 'u1') and args[0].concrete()):
+            # library fact: a bare number is a number of nanoseconds (whole ones: a float is truncated)
+            v = args[0].value() if isinstance(args[0], Sc) else Fr(args[0])
+            import math as _m
+            return Sc(X.num(Fr(_m.trunc(v), 10 ** 9)), 'm8', 'ns')
         if len(args) == 1 and isinstance(args[0], (int, Fr)) and set(kw) == {'unit'} and kw['unit'] in UNIT_SECONDS:
             return Sc(X.num(Fr(args[0]) * UNIT_SECONDS[kw['unit']]), 'm8', 'ns')
         total = Fr(0)
@@ -384,6 +389,23 @@ def register(M):
         val = elem(kwarg(args, kw, 0, 'value'))
         return v.like([El(val.d, False) if e.d == X.NAN else e for e in v.els()])
     MT[(Vec, 'fillna')] = _s_fillna
+
+    def _s_fill(direction):
+        def f(interp, v, args, kw, node):
+            series_only(v, direction, node)
+            if args or set(kw) - {'inplace'} or kw.get('inplace'):
+                raise AnalysisError(f'Series.{direction} with arguments not modelled', node)
+            els = v.els()
+            order = range(len(els)) if direction == 'ffill' else range(len(els) - 1, -1, -1)
+            last, out = None, [None] * len(els)
+            for i in order:
+                if els[i].d != X.NAN:
+                    last = els[i]
+                out[i] = El(last.d, False) if last is not None else els[i]
+            return v.like(out)
+        return f
+    MT[(Vec, 'ffill')] = _s_fill('ffill')
+    MT[(Vec, 'bfill')] = _s_fill('bfill')
 
     def _s_where(interp, v, args, kw, node):
         """Series.where(cond, other=NaN): keep where cond, else other.  ndarray has no .where"""
